@@ -313,6 +313,13 @@ func (s *sysC) Apply(ev string) {
 			n = s.Y
 		}
 		s.peerDialN++
+		if s.binding == "X" {
+			// L is about to hold a link to X that no request of L produced: from
+			// then on a dial (X,aX) is answered "already connected" (nil link, nil
+			// error) exactly as for a request issued while linked - the same
+			// separate matter the taint stands for (see the field's comment)
+			s.taint = true
+		}
 		go func() {
 			dctx, cancel := context.WithTimeout(s.ctx, 60*time.Second)
 			defer cancel()
